@@ -176,7 +176,7 @@ def handle (op : String) (args : List String) : String :=
     | some start, some secs, some objs, some infl, some nfc =>
       let ext : Reader.Ext := {
         filt := { inflate := fun x => match infl.find? (fun e => e.1 == x) with | some e => e.2 | none => none,
-                  ccitt := fun _ => none },
+                  ccitt := fun _ _ => none },
         nfc := fun p => match nfc.find? (fun e => e.1 == p) with | some e => e.2 | none => nfcMissing :: p }
       showResult (Reader.readPages { objs := objs, secs := secs, start := start } ext)
     | _, _, _, _, _ => "bad-op"
